@@ -338,6 +338,8 @@ def gen_sem_cases(rng, gen, ctx, corpus, n_ast, n_edit, n_viol):
         for _ in range(n_viol):
             kind, bad = G.violate(ast, rng, ctx)
             if kind != 'none': cases.append(('violate-' + kind, bad, G.pr(bad)))
+        sb = G.bad_operator_spacing(ast, rng)
+        if sb is not None: cases.append(('violate-opspacing', ('reject', 'an operator is not surrounded by whitespace'), sb))
         for _ in range(n_edit):
             kind, e = G.random_edit(s, ALPHABET, rng)
             cases.append(('edit-' + kind, None, e))
@@ -358,6 +360,9 @@ def semantic_stream(c, world, cases, answers, rng, lean_eval=None):
         c.case((label, s), nontrivial=bool(s.strip()))
         # --- the specification: the reading of the generating AST
         spec = None
+        if ast is not None and ast[0] == 'reject':
+            spec = ('reject', ast[1]); ast = None
+            c.count('%s-spec:%s' % (label, spec[0]))
         if ast is not None:
             try:
                 v = reader.read(ast)
@@ -548,8 +553,8 @@ def run(c):
     # ---------------------------------------------------------------- streams 2, 3: cases
     gen_const = G.Gen(rng, ctx, sides=False, gradient=False)
     gen_sided = G.Gen(rng, ctx, sides=True, gradient=True)
-    sem_const = gen_sem_cases(rng, gen_const, ctx, CORPUS, 60 if quick else 2500, 5 if quick else 20, 2 if quick else 3)
-    sem_sided = gen_sem_cases(rng, gen_sided, ctx, CORPUS[-12:], 25 if quick else 1200, 2 if quick else 10, 1 if quick else 2)
+    sem_const = gen_sem_cases(rng, gen_const, ctx, CORPUS, 60 if quick else 1500, 5 if quick else 12, 2 if quick else 3)
+    sem_sided = gen_sem_cases(rng, gen_sided, ctx, CORPUS[-12:], 25 if quick else 300, 2 if quick else 6, 1 if quick else 2)
     reqs = [request(entry, vars_f, fns_f, s) for _, entry, s in cases]
     reqs += [request('expr', ctx_field(const.var_shapes), ctx_field(const.fn_shapes), s) for _, _, s in sem_const]
     reqs += [request('expr', ctx_field(sided.var_shapes), ctx_field(sided.fn_shapes), s) for _, _, s in sem_sided]
@@ -708,8 +713,8 @@ def v1_stream(c, rng, sctx, quick):
     import nutils.expression_v1 as v1
     world = V1World(v1, sctx)
     gen = G.Gen(rng, sctx, sides=True, gradient=True, v1=True)
-    n_ast = 30 if quick else 2000
-    n_edit = 6 if quick else 30
+    n_ast = 30 if quick else 350
+    n_edit = 6 if quick else 12
     findings = 0; n = 0
     for k in range(n_ast):
         depth = rng.choice([0, 1, 2, 2, 3, 3, 4, 5, 6])
